@@ -347,6 +347,24 @@ func readBack(t *rapid.T, w *rep.Worker, fields []field, exp []byte, cuts []int)
 		truncated = true
 		w.Step("medium: truncate at %d (inside the payload of field %d)", cut, faultField)
 	}
+	if faultField >= 0 && fault == 1 {
+		// inflate the declared length of the nested field: one more than available, just under 2 GiB, and values
+		// whose low 32 bits equal the true length (a reader that truncates the length to 32 bits would accept them)
+		f := fields[faultField]
+		start := 0
+		if faultField > 0 {
+			start = cuts[faultField-1]
+		}
+		_, _, kn := protowire.ConsumeTag(data[start:])
+		_, ln := protowire.ConsumeVarint(data[start+kn:])
+		tl := uint64(len(f.payload))
+		nl := []uint64{tl + uint64(len(data)), 1<<31 - 1, 1<<32 + tl, 1<<33 + tl, 1<<34 | tl, 1<<35 + tl, 1<<63 + tl}[rapid.IntRange(0, 6).Draw(t, "inflateto")]
+		nd := append([]byte{}, data[:start+kn]...)
+		nd = protowire.AppendVarint(nd, nl)
+		data = append(nd, data[start+kn+ln:]...)
+		truncated = true // fields after the damaged one are not judged
+		w.Step("medium: declared length of field %d set to %d (payload is %d bytes)", faultField, nl, tl)
+	}
 	failUnm := rapid.IntRange(0, 3).Draw(t, "failunm") == 0
 	dec := csproto.NewDecoder(data)
 	if rapid.Bool().Draw(t, "fastdec") {
@@ -383,7 +401,7 @@ func readBack(t *rapid.T, w *rep.Worker, fields []field, exp []byte, cuts []int)
 			_ = wt
 			before := dec.Offset()
 			l, n := protowire.ConsumeVarint(data[before:])
-			fits := n > 0 && int(l) <= len(data)-before-n
+			fits := n > 0 && l <= uint64(len(data)-before-n)
 			useStub := f.isStub || f.zero == nil || rapid.IntRange(0, 3).Draw(t, "intostub") == 0
 			var target any
 			var st *stubU
